@@ -7,7 +7,7 @@
 (*   int/float/str/bool/none leaves (payload names the literal),           *)
 (*   ilist / slist (two integer / two string elements: Erg lists are       *)
 (*   homogeneous), tuple (two values), record (fields x, y), dict (one     *)
-(*   string key "k").                                                      *)
+(*   string key from the palette).                                                      *)
 (* Meaning of a value as JSON (RFC 8259): numbers by value, strings by     *)
 (* content, True/False -> true/false, None -> null, lists and tuples ->    *)
 (* arrays, records and dicts -> objects.                                   *)
@@ -23,16 +23,18 @@ Init == t = <<>> /\ todo = << <<"any", Depth>> >>
 Hole == Head(todo)
 Leaf(k, p) == /\ todo # <<>> /\ Hole[1] \in {"any", k}
               /\ t' = Append(t, <<k, p>>) /\ todo' = Tail(todo)
-Node(k, kids) == /\ todo # <<>> /\ Hole[1] = "any" /\ Hole[2] > 0
-                 /\ t' = Append(t, <<k, "">>)
+NodeP(k, payload, kids) ==
+                 /\ todo # <<>> /\ Hole[1] = "any" /\ Hole[2] > 0
+                 /\ t' = Append(t, <<k, payload>>)
                  /\ todo' = [i \in 1..Len(kids) |-> <<kids[i], Hole[2] - 1>>] \o Tail(todo)
+Node(k, kids) == NodeP(k, "", kids)
 Next == \/ \E l \in IntLits : Leaf("int", l)
         \/ \E f \in FloatLits : Leaf("float", f)
         \/ \E s \in StrLits : Leaf("str", s)
         \/ \E b \in {"True", "False"} : Leaf("bool", b)
         \/ Leaf("none", "None")
         \/ Node("ilist", <<"int", "int">>) \/ Node("slist", <<"str", "str">>)
-        \/ Node("tuple", <<"any", "any">>) \/ Node("record", <<"any", "any">>) \/ Node("dict", <<"any">>)
+        \/ Node("tuple", <<"any", "any">>) \/ Node("record", <<"any", "any">>) \/ \E key \in StrLits : NodeP("dict", key, <<"any">>)      \* the key is the payload
 Spec == Init /\ [][Next]_vars
 Complete == todo = <<>>
 Emit == Complete => PrintT(<<"J", ToJson([t |-> t])>>)
